@@ -86,6 +86,13 @@ ShareClause(t) ==
         mA == Cardinality({p \in FineLat \X FineLat : In(e.l, QXY(t, p[1], p[2]))})
         mU == Cardinality({p \in FineLat \X FineLat : In(e, QXY(t, p[1], p[2]))})
     IN IF mU = 0 THEN "skip" ELSE IF ~BinomOK(cntA, t.N, mA, mU, 48) THEN "uniform-share-of-first-operand" ELSE "ok"
+\* ExponentialIntervalSampler (points at 1/1024): x_i (n+1)^2 = lo (n+1)^2 + len i^2 (exponent 2)  resp.  lo (n+1)^2 + len ((n+1)^2 - i^2) (exponent 1/2),
+\* lo = blo4 / 4, len = blen4 / 4 of the judged parameter row
+ExpIntClause(t) ==
+    LET s == Sc(t)  n == t.N  q == (n + 1) * (n + 1)
+        want(i) == s.blo4[1] * 256 * q + s.blen4[1] * 256 * (IF s.std = 2 THEN i * i ELSE q - i * i)
+    IN IF Len(t.pts) # n THEN "exponential-grid-count"
+       ELSE IF {t.pts[i][1] * q : i \in 1..n} # {want(i) : i \in 1..n} THEN "exponential-grid-positions" ELSE "ok"
 Check(t) ==
     IF "driver_error" \in DOMAIN t THEN <<"driver-error", "", 0>>
     ELSE IF t.exc # "" THEN <<"sampling-failed:" \o t.exc, "", 0>>
@@ -99,6 +106,7 @@ Check(t) ==
                     [] s.check = "circlebd" -> CircleBdClause(t)
                     [] s.check = "polybd" -> PolyBdClause(t)
                     [] s.check = "share" -> ShareClause(t)
+                    [] s.check = "expint" -> ExpIntClause(t)
          IN <<IF c = "skip" THEN "ok" ELSE c, "", IF c = "skip" THEN 0 ELSE 1>>
 Init == tid \in 1..Len(Traces) /\ LET r == Check(Traces[tid]) IN verdict = r[1] /\ dev = r[2] /\ judged = r[3]
 Next == FALSE /\ UNCHANGED <<tid, verdict, dev, judged>>
